@@ -128,6 +128,14 @@ pub struct PosSpec {
 }
 
 #[derive(Clone, Debug, PartialEq, Eq, Hash)]
+pub struct AnySpec {
+    pub metavar: String,
+    pub prefixes: Vec<String>,
+    pub anywhere: bool,
+    pub help: Option<DocSpec>,
+}
+
+#[derive(Clone, Debug, PartialEq, Eq, Hash)]
 pub struct CmdSpec {
     pub name: String,
     pub shorts: Vec<char>,
@@ -276,6 +284,8 @@ pub enum Node {
     Cmd(Box<CmdSpec>),
     Pure(String),
     Fail(String),
+    /// `any("META", |s| s.starts_with(one of the prefixes))`, optionally `.anywhere()`
+    Any(AnySpec),
     Seq(Vec<Node>),
     Alt(Vec<Node>),
     Optional { n: Box<Node>, catch: bool },
@@ -314,7 +324,7 @@ impl Node {
     /// direct children
     pub fn children(&self) -> Vec<&Node> {
         match self {
-            Node::Named(_) | Node::Pos(_) | Node::Cmd(_) | Node::Pure(_) | Node::Fail(_) => {
+            Node::Named(_) | Node::Pos(_) | Node::Cmd(_) | Node::Pure(_) | Node::Fail(_) | Node::Any(_) => {
                 Vec::new()
             }
             Node::Seq(xs) | Node::Alt(xs) | Node::Adjacent(xs) => xs.iter().collect(),
@@ -343,7 +353,7 @@ impl Node {
     /// direct children, mutably
     pub fn children_mut(&mut self) -> Vec<&mut Node> {
         match self {
-            Node::Named(_) | Node::Pos(_) | Node::Cmd(_) | Node::Pure(_) | Node::Fail(_) => {
+            Node::Named(_) | Node::Pos(_) | Node::Cmd(_) | Node::Pure(_) | Node::Fail(_) | Node::Any(_) => {
                 Vec::new()
             }
             Node::Seq(xs) | Node::Alt(xs) | Node::Adjacent(xs) => xs.iter_mut().collect(),
@@ -533,6 +543,12 @@ pub fn show_node(n: &Node) -> String {
             s
         }
         Node::Pure(s) => format!("pure({:?})", s),
+        Node::Any(a) => format!(
+            "any({:?}, |s| starts with one of {:?}){}",
+            a.metavar,
+            a.prefixes,
+            if a.anywhere { ".anywhere()" } else { "" }
+        ),
         Node::Fail(s) => format!("fail({:?})", s),
         Node::Seq(xs) => format!(
             "construct!({})",
